@@ -435,6 +435,22 @@ Proof.
   - intros o s' out H. exact (step_first_mono s o s' out H F).
 Qed.
 
+(** Once the connection is closed (terminal outcome) nothing queued behind is handled:
+    handlePackets leaves its loop when closeErr is set, the run loop exits. *)
+Lemma closed_stops ops1 : forall s s1 outs ops2,
+  run s ops1 = (s1, outs) -> terminal (last outs ONone) = true ->
+  run s (ops1 ++ ops2) = (s1, outs).
+Proof.
+  induction ops1 as [|o rs IH]; intros s s1 outs ops2 H T.
+  - simpl in H. inversion H; subst. simpl in T. discriminate.
+  - simpl app. rewrite run_cons in *. destruct (step s o) as [sa out] eqn:Hs.
+    destruct (terminal out) eqn:Ht; [exact H|].
+    destruct (run sa rs) as [sb ob] eqn:Hr. inversion H; subst.
+    assert (T' : terminal (last ob ONone) = true).
+    { destruct ob as [|x ob']; [simpl in T; congruence | exact T]. }
+    rewrite (IH sa s1 ob ops2 Hr T'). reflexivity.
+Qed.
+
 (** A connection created after a version negotiation never negotiates again. *)
 Lemma negotiated_no_vn ops : forall s s' outs, verNeg s = true -> run s ops = (s', outs) ->
   forall o, In o outs -> (forall v, o <> ORecreate v) /\ o <> OVNError.
